@@ -495,3 +495,18 @@ pub open spec fn latched(guid: Seq<char>, key: Seq<char>) -> bool {
 pub open spec fn pair_ok(key_guid: Option<String>, key: Option<String>) -> bool {
     key_guid is Some && key is Some ==> latched(key_guid->0@, key->0@)
 }
+pub open spec fn opt_slice(b: Option<&[u8]>) -> Seq<u8> { match b { Some(v) => v@, None => Seq::<u8>::empty() } }
+pub open spec fn bool_text(b: bool) -> Seq<char> { if b { "true"@ } else { "false"@ } }     // Display for bool
+// G7: the request carries an authorization value `Azure-HMAC-SHA256 <g> <mac>` appended to a header map `pre`, where mac is
+// computed under k over the canonical string of the request's own method, URI, `pre` (= all its other headers) and body
+pub open spec fn signed_request<B>(req: http::Request<B>, g: Seq<char>, k: Seq<char>, body: Seq<u8>) -> bool {
+    exists|pre: http::HeaderMap, v: http::header::HeaderValue|
+        #[trigger] hm_appended(hm_view(pre), AUTH_H(), v) == hm_view(req_headers(req))
+        && hv_view(v) == "Azure-HMAC-SHA256"@ + " "@ + g + " "@ + mac_spec(k, sig_input_spec(req_method(req), req_uri(req), pre, body))
+}
+// the builder (if it holds no error) carries an authorization value computed over its own other parts
+pub open spec fn signed_builder(b: http::request::Builder, g: Seq<char>, k: Seq<char>, body: Seq<u8>) -> bool {
+    builder_parts(b) matches Some(p) ==> exists|pre: http::HeaderMap, v: http::header::HeaderValue|
+        #[trigger] hm_appended(hm_view(pre), AUTH_H(), v) == hm_view(parts_headers(p))
+        && hv_view(v) == "Azure-HMAC-SHA256"@ + " "@ + g + " "@ + mac_spec(k, sig_input_spec(parts_method(p), parts_uri(p), pre, body))
+}
